@@ -9,6 +9,16 @@ From DG Require Import CaseFormat ProtoWireRef ThriftWire ThriftGeneric Check01 
 Import ListNotations.
 Local Open Scope Z_scope.
 
+(* ThriftWire.dec_scalar converts a string length to nat before comparing it with the buffer ([take (Z.to_nat n)]): a
+   length prefix like 7f ff ff ff would make the extracted model build a 2^31-cell numeral.  Some 4-byte window of the
+   buffer, read as a big-endian int32, is positive and exceeds the buffer: *)
+Fixpoint has_huge_len (n : Z) (bs : list Z) : bool :=
+  match bs with
+  | a :: ((b :: c :: d :: _) as r) =>
+    (let v := ((a * 256 + b) * 256 + c) * 256 + d in (n <? v) && (v <? 2 ^ 31)) || has_huge_len n r
+  | _ => false
+  end.
+
 (* 611: Node.GetByPath.  fields: root type, bytes, path, status (0 found, 1 not found, 2 error, 3 panic), type, start, end *)
 Definition check_611 (fs : list field) : verdict :=
   match fs with
@@ -16,6 +26,9 @@ Definition check_611 (fs : list field) : verdict :=
     match parse_path rest with
     | Some (p, [FZ st; FZ ty; FZ s; FZ e]) =>
       if st =? 3 then VBad 3 [] else
+      (* the key readers of the map search go through dec_scalar: with a huge length prefix somewhere the search model is
+         only run when the bounded skip (Z arithmetic) accepts the whole value, i.e. has validated every prefix *)
+      if has_huge_len (zlen bs) bs && (match skip_go t bs with Some _ => false | None => true end) then VSkip else
       match get_by_path t bs 0 p with
       | GFound t' a b =>
         if st =? 0 then expect 1 ((ty =? t') && (s =? a) && (e =? b)) [FZ t'; FZ a; FZ b]
@@ -35,7 +48,7 @@ Definition check_612 (fs : list field) : verdict :=
     | Some (d, [FB tb; FZ ec]) =>
       if negb (desc_wf d) then VSkip else
       if (ec =? 3) || (ec =? 4) then VBad 3 [FZ ec] else
-      match t2j_walk_gen fd_mark (o mod 2048) (S (length tb)) d tb with
+      match t2j_walk_root fd_mark (o mod 2048) (S (length tb)) d tb with   (* the root struct loop with the response base extracted when the options say so *)
       | Some _ => if ec =? 0 then VOk else VDrift 2
       | None => expect 2 (negb (ec =? 0)) [FZ 1]
       end
